@@ -513,6 +513,16 @@ package keeper
 // ---------------------------------------------------------------- computing and queueing validator-set updates (C01, C02, C03, C08, C11, C12)
 
 //@ func Keeper.ComputeMinPowerInTopN pure
+//@ loop 1 invariant [idx] 0 <= _i && _i <= len(bondedValidators)
+//@ loop 1 invariant [collected] len(powers) == _i && (forall j int :: 0 <= j && j < _i ==> powers[j] == k.stakingKeeper.GetLastValidatorPower(ctx, sdk.ValAddressFromBech32(bondedValidators[j].GetOperator()).0).0)
+//@ loop 1 invariant [no-error-so-far] forall j int :: 0 <= j && j < _i ==> k.stakingKeeper.GetLastValidatorPower(ctx, sdk.ValAddressFromBech32(bondedValidators[j].GetOperator()).0).1 == nil
+//@ loop 2 invariant [idx] 0 <= _i && _i <= len(powers)
+//@ loop 2 invariant [no-error] forall j int :: 0 <= j && j < len(bondedValidators) ==> k.stakingKeeper.GetLastValidatorPower(ctx, sdk.ValAddressFromBech32(bondedValidators[j].GetOperator()).0).1 == nil
+//@ loop 2 invariant [sorted] forall a int, b int :: 0 <= a && a < b && b < len(powers) ==> powers[a] >= powers[b]
+//@ ensures [bad-topn] topN == 0 || topN > 100 ==> result1 != nil
+//@ ensures [is-a-power] result1 == nil ==> (exists j int :: 0 <= j && j < len(powers) && result0 == powers[j])
+//@ ensures [all-validators-counted] result1 == nil ==> len(powers) == len(bondedValidators)
+//@ ensures [staking-error-fails] (exists j int :: 0 <= j && j < len(bondedValidators) && k.stakingKeeper.GetLastValidatorPower(ctx, sdk.ValAddressFromBech32(bondedValidators[j].GetOperator()).0).1 != nil) && topN > 0 && topN <= 100 ==> result1 != nil
 //@ ensures [frame] S == old(S) && E == old(E) && X == old(X)
 
 //@ func DiffValidators pure
